@@ -306,26 +306,30 @@ func ruleNoSendAfterDone(c *Ctx, rule string) {
 		return out
 	}
 	n := 0
-	for _, g := range srcFuncs(sp) {
-		if goIns, _ := spawnedInLoop(g); goIns == nil {
-			// also single goroutines: is g the target of any go statement?
-			if g.Parent() == nil {
-				continue
-			}
-			isGo := false
-			for _, b := range g.Parent().Blocks {
-				for _, ins := range b.Instrs {
-					if gi, ok := ins.(*ssa.Go); ok {
-						if mc, ok := gi.Call.Value.(*ssa.MakeClosure); ok && mc.Fn == g {
-							isGo = true
-						}
-					}
+	// the goroutine bodies of the package: function literals and named functions started with go
+	var targets []*ssa.Function
+	seenT := map[*ssa.Function]bool{}
+	for _, f := range srcFuncs(sp) {
+		for _, b := range f.Blocks {
+			for _, ins := range b.Instrs {
+				gi, ok := ins.(*ssa.Go)
+				if !ok {
+					continue
+				}
+				var t *ssa.Function
+				if mc, ok := gi.Call.Value.(*ssa.MakeClosure); ok {
+					t, _ = mc.Fn.(*ssa.Function)
+				} else if sc := gi.Call.StaticCallee(); sc != nil && sc.Pkg == sp {
+					t = sc
+				}
+				if t != nil && !seenT[t] && t.Blocks != nil {
+					seenT[t] = true
+					targets = append(targets, t)
 				}
 			}
-			if !isGo {
-				continue
-			}
 		}
+	}
+	for _, g := range targets {
 		// execution segments: body, then deferred calls last-registered first; a
 		// deferred closure is a segment of its own, a directly deferred call
 		// (defer wg.Done()) is a segment consisting of that call
@@ -342,6 +346,11 @@ func ruleNoSendAfterDone(c *Ctx, rule string) {
 							defers = append(defers, segment{fn: df})
 							continue
 						}
+					}
+					// a deferred method of the package (defer p.exit()) is a segment like a deferred literal
+					if sc := d.Call.StaticCallee(); sc != nil && sc.Pkg == sp && sc.Blocks != nil {
+						defers = append(defers, segment{fn: sc})
+						continue
 					}
 					defers = append(defers, segment{direct: d})
 				}
